@@ -90,6 +90,24 @@ func StaticCallee(c ssa.CallInstruction) *ssa.Function {
 			return f
 		}
 	}
+	// a local closure variable that is assigned exactly once (`revert := func() {..}` captured by another
+	// closure becomes a memory cell: the call loads it, possibly through the capturing closure's free variable)
+	if cc.IsInvoke() {
+		return nil
+	}
+	if al, ok := VarIdentity(cc.Value).(*ssa.Alloc); ok {
+		sts := StoreInstrsInto(al)
+		if len(sts) == 1 {
+			switch v := sts[0].Val.(type) {
+			case *ssa.MakeClosure:
+				if f, ok := v.Fn.(*ssa.Function); ok {
+					return f
+				}
+			case *ssa.Function:
+				return v
+			}
+		}
+	}
 	return nil
 }
 
